@@ -3,7 +3,7 @@ import ast
 import re
 
 from ..model import AnalysisError, Model, walk_no_nested, norm_stmt
-from .. import flow, protocol, dispatch, replay, siblings, defaults, sem
+from .. import flow, protocol, dispatch, replay, siblings, defaults, sem, deleg
 
 EXPLANATION = (
     'Decided: (R1) for every PER/UPER/OER type class and every assignment of its configuration conditions, each token path the encoder can '
@@ -348,6 +348,31 @@ def check(ctx):
         for node, why in bad:
             ctx.violation('C01.R7', f._mod.rel, node, Model.qual(f), why + ': a present NULL (value None) or falsy member is treated as absent and not encoded', stmt='presence by value')
 
+    # ---- R10: delegation mirror (sa/deleg.py) on the binary codecs, BER/DER included (E1 covers the stream protocol of PER/UPER/OER only)
+    ctx.rule('C01.R10', 'per configuration, decode / decode_content hand the data to the mirrored methods of the children that encode / encode_content handed the value to')
+    n10 = 0
+    for rel in ('asn1tools/codecs/ber.py', 'asn1tools/codecs/der.py', 'asn1tools/codecs/per.py', 'asn1tools/codecs/uper.py', 'asn1tools/codecs/oer.py'):
+        for c in model.mod(rel).classes.values():
+            if c.name in ('Compiler', 'Encoder', 'Decoder'):
+                continue
+            for en, dn in (('encode', 'decode'), ('encode_content', 'decode_content')):
+                er, dr = c.find_method(en), c.find_method(dn)
+                if not er or not dr or (er[1]._cls is not c and dr[1]._cls is not c):
+                    continue
+                mm = deleg.mismatches(c, en, dn)
+                if mm is None:
+                    ctx.instance('C01.R10', '%s.%s/%s' % (c.qname, en, dn), 'undecided', 'too many paths or configuration atoms', nontrivial=False, node=dr[1], file=rel)
+                    continue
+                n10 += 1
+                ctx.instance('C01.R10', '%s.%s/%s' % (c.qname, en, dn), 'mirrored' if not mm else 'VIOLATION', nontrivial=any(d for _k, d in (deleg.deleg_paths(c, dr[1]) or [])),
+                             node=dr[1], file=rel)
+                for asg, extra, es in mm:
+                    ctx.violation('C01.R10', rel, dr[1], Model.qual(dr[1]),
+                                  'under the configuration %s the decoder can hand the data to %s while the encoder hands the value to %s only: what one child wrote is read by another '
+                                  'child protocol' % (asg or '{}', [sorted(x) for x in extra], [sorted(x) for x in es]), stmt='%s delegations differ from %s' % (dn, en))
+    if n10 < 60:
+        raise AnalysisError('C01.R10 examined only %d method pairs' % n10)
+
 
 MUTANTS = [
     dict(name='addition group reset on all-zero bits alone', file=PER,
@@ -434,3 +459,6 @@ MUTANTS.append(dict(name='Encoder.align_always pads from the accumulator count a
         width -= self.number_of_bits
 """, new="""        width = (-self.number_of_bits & 0x7)
 """, expect='C01.R9'))
+
+MUTANTS.append(dict(name='BER explicit tag decodes its contents with the inner content decoder', file='asn1tools/codecs/ber.py',
+                    old="        values, end_offset = self.inner.decode(data, offset)", new="        values, end_offset = self.inner.decode_content(data, offset, length)", expect='C01.R10'))
